@@ -93,4 +93,8 @@ rotators never write into (views of) the model's arrays in place -/
 theorem src_transform_and_rotators_read_only :
     Gen.sanitizerTransformWrites = ["self.is_valid_feature"] ∧ Gen.rotatorFitInPlaceOps = [] := by decide
 
+/-- source obligation: no public accessor writes an attribute (such as `.name`) of an array it took directly out of the result
+container — a query leaves the stored entries as they are -/
+theorem src_accessors_do_not_write_stored_arrays : Gen.accessorsWritingStoredArrays = [] := by decide
+
 end C14
